@@ -53,7 +53,13 @@ Definition pins : list string := ["usim/_basics/resource.py:ResourcesUnavailable
   "usim/_basics/tracked.py:AsyncComparison.__invert__";
   "usim/_basics/tracked.py:AsyncComparison.__init__";
   "usim/_basics/tracked.py:AsyncComparison.__on_changed__";
-  "usim/_basics/tracked.py:AsyncComparison.<attrs>"].
+  "usim/_basics/tracked.py:AsyncComparison.<attrs>";
+  "usim/_basics/tracked.py:<module>";
+  "usim/_basics/tracked.py:Tracked.<attrs>";
+  "usim/_basics/tracked.py:Tracked.__add_listener__";
+  "usim/_basics/tracked.py:Tracked.__ge__";
+  "usim/_basics/tracked.py:Tracked.__init__";
+  "usim/_basics/tracked.py:Tracked.value"].
 (** the functions the model of C12 was transcribed from are unchanged in /repo *)
 Lemma src_unchanged : forallb pin_ok pins = true.
 Proof. vm_compute. reflexivity. Qed.
